@@ -98,15 +98,16 @@ func newC01World(c *rig.Ctx, T model.FeatureTypeType) *c01World {
 }
 
 type c01Cell struct {
-	dest string // nm | server | client | unknown
-	fn   rig.FnInfo
-	cl   model.CmdClassifierType
-	ack  bool
-	gen  bool // generated payload instead of an empty one
+	dest  string // nm | server | client | unknown
+	fn    rig.FnInfo
+	cl    model.CmdClassifierType
+	ack   bool
+	gen   bool // generated payload instead of an empty one
+	nodev bool // the device part of the destination address is omitted (legal; it defaults to the recipient)
 }
 
 func (x c01Cell) String() string {
-	return fmt.Sprintf("%s %s %s ack=%v gen=%v", x.dest, x.cl, x.fn.Fn, x.ack, x.gen)
+	return fmt.Sprintf("%s %s %s ack=%v gen=%v nodev=%v", x.dest, x.cl, x.fn.Fn, x.ack, x.gen, x.nodev)
 }
 
 var c01Classifiers = []model.CmdClassifierType{model.CmdClassifierTypeRead, model.CmdClassifierTypeReply, model.CmdClassifierTypeNotify,
@@ -143,7 +144,9 @@ func c01Cells(cw *c01World) []c01Cell {
 					continue
 				}
 				for _, ack := range []bool{false, true} {
-					cells = append(cells, c01Cell{dest: dest, fn: f, cl: cl, ack: ack})
+					for _, nodev := range []bool{false, true} {
+						cells = append(cells, c01Cell{dest: dest, fn: f, cl: cl, ack: ack, nodev: nodev})
+					}
 				}
 			}
 		}
@@ -197,10 +200,13 @@ func c01Case(c *rig.Ctx) {
 	var trace []string
 	p := w.Peers[sender]
 	for ci, cell := range cells {
+		if !c.Thorough() && cell.dest == "nm" && cell.nodev && r.Intn(2) == 0 {
+			continue
+		}
 		if !c.Thorough() && cell.dest != "nm" {
-			keep := 10
+			keep := 20
 			if cell.dest == "server" && (cell.cl == model.CmdClassifierTypeWrite || cell.cl == model.CmdClassifierTypeRead) {
-				keep = 3 // the rows with the most specific expectations are sampled more densely
+				keep = 6 // the rows with the most specific expectations are sampled more densely
 			}
 			if r.Intn(keep) != 0 {
 				continue
@@ -334,6 +340,11 @@ func c01Case(c *rig.Ctx) {
 		for _, q := range w.Peers {
 			q.Tap.Take()
 		}
+		if cell.nodev {
+			nd := *dst
+			nd.Device = nil
+			dst = &nd
+		}
 		mc := p.Send(cell.cl, src, dst, cell.ack, ref, cmd)
 		c.Events(1)
 		id := fmt.Sprintf("T=%s prefixed=%v peer=%d :: %s", T, prefixed, sender, cell)
@@ -377,6 +388,10 @@ func c01Case(c *rig.Ctx) {
 			}
 			wantSrc := *dst
 			wantSrc.Device = util.Ptr(model.AddressDeviceType(rig.LocalAddr))
+			if cell.dest == "unknown" && cell.nodev && d.Header.AddressSource != nil {
+				// no local feature is addressed and the request names no device: the statement does not fix the device part
+				wantSrc.Device = d.Header.AddressSource.Device
+			}
 			if rig.JS(d.Header.AddressSource) != rig.JS(&wantSrc) {
 				c.Violate("response-source", "%s\n response source %s != addressed local feature %s", id, rig.JS(d.Header.AddressSource), rig.JS(&wantSrc))
 			}
